@@ -77,6 +77,12 @@ Theorem C04_typed_variable_lookup :
     lookup id (ea_table element_types bs) = lookup id (flat_map snd (ordered_blocks element_types bs)).
 Proof. intros. apply ea_table_lookup. assumption. Qed.
 
+(* per-run tie of the file layer: StringSeries.read_file / read_files of the tree
+   under test are the bodies the model stands for (the file is read on every
+   call; no cache between a write and the next read of the same path) *)
+Theorem C04_reader_reads_file : reads_file_every_call = true.
+Proof. reflexivity. Qed.
+
 (* the decimal layer under ids, counts and connectivity *)
 Theorem C04_decimal_roundtrip : forall z, parse_Z (print_Z z) = Some z.
 Proof. exact parse_print_Z. Qed.
